@@ -285,26 +285,21 @@ def point_in_box_local(pt, x, y, yaw, width, length, scale=1.0):
 def plane_distance(est_corners, gt_corners, gt_corners_ego, tie_tol=1e-9):
     """RMS distance between the corresponding corners of the GT side nearest to the ego.
 
-    Returns the list of admissible values (more than one iff the choice of the second-nearest corner is a tie).
+    Returns the list of admissible values: one value, unless the choice of the two nearest GT corners is a tie
+    (within tie_tol), in which case every tie-consistent pair of corners is admissible.
     """
+    import itertools
+
     d = [math.hypot(c[0], c[1]) for c in gt_corners_ego]
-    order = sorted(range(4), key=lambda i: d[i])
-    first = order[0]
-    cands = [order[1]]
-    if abs(d[order[2]] - d[order[1]]) <= tie_tol:
-        cands.append(order[2])
-        if abs(d[order[3]] - d[order[1]]) <= tie_tol:
-            cands.append(order[3])
-    firsts = [first]
-    if abs(d[order[1]] - d[order[0]]) <= tie_tol and len(cands) > 1:
-        # three-way ties: any two of the tied corners
-        firsts = [order[0], order[1]]
+    ds = sorted(d)
+    second = ds[1]
+    cand = [i for i in range(4) if d[i] <= second + tie_tol]  # corners that can be among the two nearest
+    must = [i for i in cand if d[i] < second - tie_tol]  # strictly nearer than the second: always chosen
     vals = []
-    for f in firsts:
-        for s in cands:
-            if s == f:
-                continue
-            dl = math.hypot(est_corners[f][0] - gt_corners[f][0], est_corners[f][1] - gt_corners[f][1])
-            dr = math.hypot(est_corners[s][0] - gt_corners[s][0], est_corners[s][1] - gt_corners[s][1])
-            vals.append(math.sqrt(0.5 * (dl * dl + dr * dr)))
+    for f, s in itertools.combinations(cand, 2):
+        if any(m not in (f, s) for m in must):
+            continue
+        dl = math.hypot(est_corners[f][0] - gt_corners[f][0], est_corners[f][1] - gt_corners[f][1])
+        dr = math.hypot(est_corners[s][0] - gt_corners[s][0], est_corners[s][1] - gt_corners[s][1])
+        vals.append(math.sqrt(0.5 * (dl * dl + dr * dr)))
     return vals
